@@ -11,7 +11,7 @@ import sys
 
 import numpy as np
 
-from ..common import HarnessError, Report, VERIF, pmap
+from ..common import HarnessError, REPO, Report, VERIF, pmap
 
 PID = "C07"
 ACTS = ["draw17", "runother", "runother_seeded", "construct_only", "run_noisy", "options_logging"]
@@ -112,7 +112,7 @@ def drive(args):
 def _spawn(item):
     cases, hashseed = item
     env = dict(os.environ)
-    env["PYTHONPATH"] = "/repo:%s" % VERIF
+    env["PYTHONPATH"] = "%s:%s" % (REPO, VERIF)
     env["PYTHONHASHSEED"] = str(hashseed)
     code = "import json,sys,warnings,logging; warnings.filterwarnings('ignore'); logging.disable(logging.CRITICAL)\n" \
            "from mc.props import c07\nprint('RESULT'+json.dumps(c07.drive(json.loads(sys.argv[1]))))"
